@@ -893,3 +893,13 @@ PROPS["C15"]["claim"] += (" With totality (e2e round 4): c15_end_to_end_or_value
 PROPS["C09"]["claim"] += (" Round 4 of shiftsim: the class is now POSITIONAL (independent_blocks_positional, independent_blocks_wide; executable test "
     "positionalCheck proved sound): a ends with a line feed and no line of a starts, after its quote markers and indentation, with a list, setext or fence "
     "trigger - digits, dashes, stars, equal signs and backticks inside lines are allowed (ordinary prose).")
+
+# ---- session 4, gfmx round 3: C01 end to end with extensions ----
+PROPS["C01"]["claim"] += (" *** END TO END WITH EXTENSIONS (GM.Props.ConvertXE2E): for EVERY byte string, class assignment and option set the composed models with "
+    "any subset of Strikethrough, TaskList and Linkify answer HTML - convertx_total, convertl_total_no_table, convertl_total_linkify (convertx_never_errs, "
+    "convertl_never_errs_no_table): block phase = the default pipeline's (block_phase_total), the inline phase with the added parsers is total with "
+    "segments in range and unpadded (ext_inline_phase_total_segments_resolve, for all 16 member sets), no node renderer panics on the resulting shape "
+    "(render_no_panic_of_shape). With Table / GFM: total on sources without '-' (convertgfm_total_dash_free, convertl_total_dash_free); in general "
+    "reduced to five facts about the store of the block phase with the table transformer (convertl_total_of_store_facts; BlockPhaseXGood stated, not "
+    "proved) - the table transformer PROVABLY falls outside the contract of the generic no-panic theorem for transformer lists (it adds two nodes and "
+    "keeps a prefix of the lines: table_transformer_outside_contract), so that theorem must first be widened.")
